@@ -298,17 +298,6 @@ func c20EncAscend(e *jsontext.Encoder, s nest, k int) error {
 // sub returns the nest below level k (levels k+1..d) — the value that is next after c20Descend(k).
 func (s nest) sub(k int) nest { return nest{s.pat, s.kinds[k:], s.leaf, s.fat} }
 
-func c20Ks(d int) []int {
-	ks := []int{1, 2, 4999, 9997, 9998, 9999, 10000}
-	var out []int
-	for _, k := range ks {
-		if k < d && k <= c20Max {
-			out = append(out, k)
-		}
-	}
-	return out
-}
-
 func allKind(s nest, k byte) bool {
 	for _, x := range s.kinds {
 		if x != k {
@@ -1644,7 +1633,11 @@ func c20SweepOne(c *Ctx, w *c20Watch, rng *rand.Rand, in []byte) {
 		errs := 0
 		for n := 0; n < 10*len(in)+20 && errs < 3; n++ {
 			var err error
-			switch rng.IntN(8) {
+			switch rng.IntN(9) {
+			case 8:
+				if rng.IntN(4) == 0 { // Reset outside of any marshal call is allowed
+					d.Reset(rd(), dopts()...)
+				}
 			case 0:
 				_ = d.PeekKind()
 			case 1, 2:
@@ -1696,7 +1689,11 @@ func c20SweepOne(c *Ctx, w *c20Watch, rng *rand.Rand, in []byte) {
 		}
 		e := jsontext.NewEncoder(wr, opts...)
 		for n := rng.IntN(24); n > 0; n-- {
-			switch rng.IntN(14) {
+			switch rng.IntN(15) {
+			case 14:
+				if rng.IntN(4) == 0 {
+					e.Reset(wr, opts...)
+				}
 			case 0:
 				e.WriteToken(jsontext.Null)
 			case 1:
